@@ -146,6 +146,10 @@ class Disposable:
         self.exit_err: BaseException | None = None
         self.enter_err: BaseException | None = None
 
+    def __len__(self) -> int:
+        # a resource may have a length of its own (a pool: its open connections) - and then be falsy until it is entered
+        return 1 if (self.enter_done or not self.spec.get("falsy")) else 0
+
     async def __aenter__(self) -> Any:
         W = self.W
         self.enter_calls += 1
